@@ -40,7 +40,8 @@ def one(sid):
 
 
 def main():
-    ids = sys.argv[1:] or sorted(os.path.basename(os.path.dirname(p)) for p in glob.glob(os.path.join(VERIF, "seeded", "*", "meta.json")))
+    ids = sys.argv[1:] or sorted(os.path.basename(os.path.dirname(p)) for p in glob.glob(os.path.join(VERIF, "seeded", "*", "meta.json"))
+                                 if not json.load(open(p)).get("retired"))
     bad = 0
     with ProcessPoolExecutor(max_workers=14) as ex:
         for sid, det, err in ex.map(one, ids):
